@@ -162,6 +162,7 @@ class GenList(list):
 
 
 _GEN_CACHE = {}
+_TYPE_CACHE = {}
 
 
 def _is_generator(fn):
@@ -627,6 +628,13 @@ def ev(n, env, funcs=None):
                 raise AttributeError(args[1])
             raise Unsupported('getattr on %r' % (o_,))
         if isinstance(f, ast.Name) and fname == 'type' and len(args) == 1:
+            if isinstance(args[0], Obj) and getattr(args[0], 'clsqual', None):
+                # the class of a record: a stand-in type that prints and compares as the repository class does
+                q_ = args[0].clsqual
+                if q_ not in _TYPE_CACHE:
+                    mod_, _, nm_ = q_.rpartition('.')
+                    _TYPE_CACHE[q_] = type(nm_, (), {'__module__': mod_})
+                return _TYPE_CACHE[q_]
             return type(args[0])
         if isinstance(f, ast.Name) and fname == 'str' and len(args) == 1 and isinstance(args[0], (type, str, int, float)):
             return str(args[0])
